@@ -252,6 +252,11 @@ class C06Full(core.PropBase):
         for p in all_defs:
             if p.type.value in ("INT", "FLOAT") and p.name in case["vals"] and not jc.small_exponent(case["vals"][p.name]):
                 dom = "numeral-domain"
+        # any value (of any type: it may be substituted into a numeric range) or default with a non-ASCII decimal digit
+        # is outside Numerals.v's domain: Python's int() / Decimal() read those digits, the model's numerals do not
+        texts = list(case["vals"].values()) + [str(p.default) for p in all_defs if getattr(p, "default", None) is not None]
+        if any(ord(ch) > 127 and ch.isdecimal() for v in texts for ch in str(v)):
+            dom = "numeral-domain"
         try:
             out["defs"] = [[jc.def_sx(p) for p in (t.parameterDefinitions or [])] for t in [jt] + ets]
         except Exception as e:  # noqa: BLE001
